@@ -225,7 +225,7 @@ def obligations(tier):
         o["antecedents"] = ["c14_graph_compared"]
         obs.append(o)
     jvs = [None, "all"] if tier == "quick" else [None, "all", 0, 2]
-    base = ob("C14", "e2c.family", "vt.harness.C14:family", {"join_values": jvs}, timeout=1800)
+    base = ob("C14", "e2c.family", "vt.harness.C14:family", {"join_values": jvs}, timeout=1800 if tier == "quick" else 5400)
     base["antecedents"] = ["c14_ok"]
     for i in range(16):
         d = dict(base)
